@@ -209,6 +209,27 @@ def array_family(thorough):
                      ('body', n2, t2, props_small[:3], ('x',),
                       {'cm': [7., 8., 9.]})]))
     fam.append(('none', []))
+    if thorough:
+        # more particle counts / tag patterns x every output list x constants
+        for n, tags in ((2, [2, 0]), (4, [0, 1, 2, 0]), (5, [2, 2, 0, 0, 1]),
+                        (4, [1, 1, 1, 1])):
+            for out in outs + [('d0',), ('f3', 'l', 'u3'),
+                               tuple(p[0] for p in props_small)]:
+                for consts in ({}, {'c1': [2.5]},
+                               {'c1': [2.5], 'c4': [1., 2., 3., 4.]}):
+                    fam.append(('one:n%d:%s:%s:%s' % (
+                        n, ''.join(map(str, tags)), out, len(consts)),
+                        [('a', n, tags, props_small, out, consts)]))
+        # three arrays, every assignment of three output lists
+        for o1, o2, o3 in itertools.product(outs[:3], repeat=3):
+            fam.append(('three:%s:%s:%s' % (o1, o2, o3),
+                        [('fluid', 3, [0, 2, 0], props_small, o1,
+                          {'cm': [1., 2., 3.]}),
+                         ('body', 2, [0, 0], props_small[:4],
+                          o2 if o2 is None else tuple(
+                              p for p in o2 if p in ('x', 'f3', 'i')), {}),
+                         ('wall', 0, [], props_small[:3],
+                          o3 if o3 is None else ('x',), {'k': [9.0]})]))
     return fam
 
 
